@@ -46,9 +46,13 @@ P = {
   "prerequisite flags present) and its payload truncations; the X lines of the real daemon are compared byte-exact with the model for all arrival "
   "orders and limit/over-length field contents the generator draws.", "Lean 4 characterisation of query eligibility/payload + byte-exact correspondence on X lines"),
  "C07": ("proto", True,
-  "Lean frame theorems (a handler run for one request changes no other request; outputs name only that request) and, on the implementation, every "
-  "generated interleaving is compared with each client's stream run alone, per client, up to the serial in routing tags.",
-  "Lean 4 frame lemmas + differential runs (interleaved vs alone) of the implementation"),
+  "Lean theorem C07_history (and C07_history_started_total from the daemon as started on any configuration): for every list of client events "
+  "(lines of clients, replies routed to a client's live instance, timer expiries) and every client, the run of the whole list and the run of "
+  "that client's events alone write, event by event, the same lines about the client - byte for byte, except that a query carries the routing "
+  "tag of its own run (same id, that run's serial) - and every other event writes only global notices and lines rendered for another client's "
+  "request; proved by a relation between the two runs that every handler preserves (tables compared up to their counters). On the "
+  "implementation every generated interleaving is compared with each client's stream run alone, per client, up to the serial in routing tags.",
+  "Lean 4 history-level non-interference theorem (simulation between the whole run and the run of one client) + differential runs (interleaved vs alone) of the implementation"),
  "C08": ("proto", True,
   "Lean theorems: under the table invariant no Fault (NULL dereference, failed assertion, re-entrant accept) is reachable for any input line "
   "(stepLine_total), and line framing is independent of chunking (splitLines_append). Runtime facet (crash / hang / foreign memory / clean exit) is "
